@@ -145,11 +145,12 @@ class ExprMixin:
         if want is None or want.kind != "map":
             raise Unsupported("dict comprehension needs a Map[...] typed target")
         itv = self.eval(node.generators[0].iter, st)
-        if not (isinstance(itv, tuple) and itv and itv[0] == "#traverse"):
-            raise Unsupported("dict comprehension over other than a tree traversal")
+        over_keys = isinstance(itv, SV) and itv.pt.kind in ("map", "set") and itv.pt.args[0] == want.args[0]
+        if not (isinstance(itv, tuple) and itv and itv[0] == "#traverse") and not over_keys:
+            raise Unsupported("dict comprehension over other than a tree traversal, a dict or a set")
         if ast.unparse(node.key) != node.generators[0].target.id:
             raise Unsupported("dict comprehension key must be the loop variable")
-        root = itv[1]
+        root = itv[1] if not over_keys else None
         ks = self.tenv.sort(want.args[0])
         x = smt.Var(smt.fresh_name("n"), ks)
         sub = st.fork()
@@ -163,7 +164,11 @@ class ExprMixin:
         if isinstance(val, tuple) and val and val[0] == "#emptyset":
             val = self.set_of([], want.args[1])
         r = self.fresh("dictcomp", want, st)
-        anc = self.ctx.app("anc", self.ops.term(root), x)
+        if over_keys:
+            # {k: v for k in d}: defined on exactly the keys of d (members of the set)
+            anc = smt.Select(self.ops.map_dom(itv) if itv.pt.kind == "map" else itv.term, x)
+        else:
+            anc = self.ctx.app("anc", self.ops.term(root), x)
         st.assume(smt.Forall([(x.args[0], ks)], smt.Eq(smt.Select(self.ops.map_dom(r), x), anc)))
         st.assume(smt.Forall([(x.args[0], ks)], smt.Implies(anc, smt.Eq(smt.Select(self.ops.map_val(r), x), self.ops.term(val, want.args[1])))))
         return r
@@ -181,6 +186,7 @@ class ExprMixin:
         st.pc.append(c)
         a = self.narrow(self.eval(node.body, st, want), want, st)
         self._pop_guard(st, n)
+        n = len(st.pc)  # facts learnt in the first branch stay (guarded) below the second guard
         st.pc.append(smt.Not(c))
         b = self.narrow(self.eval(node.orelse, st, want), want, st)
         self._pop_guard(st, n)
@@ -364,6 +370,16 @@ class ExprMixin:
         spt = a.pt if self._is_kind(a, "set") else b.pt
         es = self.tenv.sort(spt.args[0])
         A, B = self.ops.term(a, spt), self.ops.term(b, spt)
+        # s | {x, ...} and s - {x, ...} with a set display on the right: exact as array updates (no auxiliary set, usable under binders)
+        lits, cur = [], B
+        while cur.op == "store" and cur.args[2] == smt.TRUE:
+            lits.append(cur.args[1])
+            cur = cur.args[0]
+        if cur.op == "#constarr" and cur.args[0] == smt.FALSE and lits and isinstance(op, (ast.BitOr, ast.Sub)):
+            out = A
+            for it in reversed(lits):
+                out = smt.Store(out, it, smt.TRUE if isinstance(op, ast.BitOr) else smt.FALSE)
+            return SV(out, spt)
         x = smt.Var(smt.fresh_name("e"), es)
         r = self.fresh("setop", spt, st)
         ina, inb, inr = smt.Select(A, x), smt.Select(B, x), smt.Select(r.term, x)
